@@ -11,7 +11,7 @@ import numpy as np
 from scipy.integrate import solve_ivp
 
 
-def nbody_rhs(G, m, n_active, tp_type):
+def nbody_rhs(G, m, n_active, tp_type, soft=0.0):
     m = np.asarray(m, dtype=float)
     N = len(m)
     src = np.zeros((N, N))          # src[i, j] = 1 if particle j exerts a force on particle i
@@ -29,7 +29,7 @@ def nbody_rhs(G, m, n_active, tp_type):
         p = y[:3 * N].reshape(N, 3)
         v = y[3 * N:6 * N]
         d = p[None, :, :] - p[:, None, :]            # d[i, j] = x_j - x_i
-        r2 = (d * d).sum(axis=2)
+        r2 = (d * d).sum(axis=2) + soft * soft       # Plummer softening as in gravity.c
         np.fill_diagonal(r2, 1.0)
         inv3 = r2 ** -1.5
         a = G * (W * inv3)[:, :, None] * d
@@ -64,7 +64,7 @@ def solve(job):
     N = len(y0)
     state = np.concatenate([y0[:, :3].ravel(), y0[:, 3:].ravel()])
     if job["kind"] in ("nbody", "nbody+sho"):
-        base = nbody_rhs(job["G"], job["m"], job["active"], job["tp_type"])
+        base = nbody_rhs(job["G"], job["m"], job["active"], job["tp_type"], job.get("softening", 0.0))
     else:
         base = hill_rhs(job["Omega"], job["G"], job["m"])
     if job["kind"] == "nbody+sho":
